@@ -45,8 +45,23 @@ def run(ctx):
             base = [nc] * depth
             shape = [nc + (rng.choice([0, 1, 2]) if impose else 0) for _ in range(depth)]
             cases.append({"tree": t, "depth": depth, "desc": list(desc), "base_shape": base, "shape": shape, "impose": impose})
+    # tensors whose leaf default is 7 (an empty position of an uncompressed leaf rank then holds 7, a stored 0 is content)
+    for c in list(cases):
+        if rng.random() < 0.25:
+            cases.append(dict(c, dflt=7))
+    # bit-vector ranks wider than one mask word (shapes 33-70, a few coordinates)
+    for _ in range(150 if ctx.quick else 3000):
+        depth = rng.choice([1, 2])
+        w = rng.choice([33, 40, 64, 65, 70])
+        def wt(d):
+            cs = sorted(rng.sample(range(w), rng.randint(0, 4)))
+            return {"k": "F", "e": [[c, ({"k": "L", "v": rng.randint(1, 3)} if d == 1 else wt(d - 1))] for c in cs]}
+        t = wt(depth)
+        desc = [rng.choice("UCB") for _ in range(depth)]
+        desc[rng.randrange(depth)] = "B"
+        cases.append({"tree": t, "depth": depth, "desc": desc, "base_shape": [w] * depth, "shape": [w] * depth, "impose": 0})
     part = family.run_family(ctx, "C20", cases, "harness.exec_codec", "CodecTrace.tla", "CodecTrace.cfg",
-                             op_of=lambda c, lg, st: "".join(c["desc"]), where_of=lambda c, lg, st: classify_tree(c["tree"]) + (":imposed" if c["impose"] else ""),
+                             op_of=lambda c, lg, st: "".join(c["desc"]), where_of=lambda c, lg, st: classify_tree(c["tree"]) + (":imposed" if c["impose"] else "") + (":dflt7" if c.get("dflt") else "") + (":wide" if c["shape"][0] > 32 else ""),
                              nontrivial=lambda c, lg: bool(c["tree"]["e"]))
     res = {"design": design, "states": states, "transitions": states, "exhaustive": False,
            "rule": "a case is (tensor, descriptor over {U,C,B}, optional larger imposed shape): the real codec encodes it, the arrays are decoded by the TLA+ layout, "
